@@ -191,6 +191,16 @@ package ed25519
 //@   modifies nothing
 //@   ensures result == isneutral(smul8(P3(*p)))
 
+// what single verification (verifyWithOptionsNoPanic) reports for one entry under the options
+//@ spec ventry(pk, m, sig, opts) = optsok(opts, m) && len(pk) == 32 && ite(len(opts.Context) == 0, vspec(pk, m, sig, variant(opts), bnil(), 0, opts.ZIP215Verify), vspec(pk, m, sig, variant(opts), bytesOf(opts.Context), len(opts.Context), opts.ZIP215Verify))
+// G1: an entry that single verification accepts is never marked invalid (holds at every loop head)
+//@ spec g1(publicKeys, messages, sigs, opts, valid) = forall(k, 0, len(publicKeys), ventry(publicKeys[k], messages[k], sigs[k], opts) ==> valid[k])
+
+// G2: the summary flag is the conjunction of the entries: ret == 0 exactly when no entry is marked invalid
+//@ spec g2(valid, ret, n) = 0 <= ret && ret <= 3 && ((ret == 0) == forall(k, 0, n, valid[k]))
+// the acceptance conditions of one entry other than the group equation and S < L
+//@ spec vpre(pk, m, sig, opts) = len(sig) == 64 && len(pk) == 32 && optsok(opts, m) && decodable(bytesOf(pk[0:32])) && decodable(bytesOf(sig[0:32])) && (opts.ZIP215Verify || (!small(bytesOf(pk[0:32])) && !small(bytesOf(sig[0:32]))))
+
 //@ func VerifyBatch(rand, publicKeys, messages, sigs, opts)
 //@   requires opts != nil
 //@   modifies nothing
@@ -198,22 +208,25 @@ package ed25519
 //@   elem-invariant batch.scalars : reduced(*elem)
 //@   elem-invariant batch.points : red4(*elem)
 //@   loop#1 modifies rangeindex, valid[0:len(valid)]
-//@   loop#1 invariant -1 <= rangeindex && rangeindex < len(valid)
+//@   loop#1 invariant -1 <= rangeindex && rangeindex < len(valid) && forall(k, 0, rangeindex + 1, valid[k])
 //@   loop#2 modifies f, num, offset, batch, p, hash, ret, valid[0:len(valid)]
-//@   loop#2 invariant 0 <= offset && 0 <= num && offset + num == len(publicKeys)
+//@   loop#2 invariant g1(publicKeys, messages, sigs, *opts, valid) && g2(valid, ret, len(publicKeys)) && 0 <= offset && 0 <= num && offset + num == len(publicKeys)
 //@   loop#3 modifies i, batch.scalars
-//@   loop#3 invariant 0 <= i && i <= batchSize
+//@   loop#3 invariant g1(publicKeys, messages, sigs, *opts, valid) && g2(valid, ret, len(publicKeys)) && 0 <= i && i <= batchSize
 //@   loop#4 modifies i, batch.scalars, ret, batchOk, valid[0:len(valid)]
-//@   loop#4 invariant 0 <= i && i <= batchSize && forall(k, 0, i, len(sigs[k+offset]) == 64)
+//@   loop#4 invariant g1(publicKeys, messages, sigs, *opts, valid) && g2(valid, ret, len(publicKeys)) && 0 <= i && i <= batchSize && forall(k, 0, i, len(sigs[k+offset]) == 64)
 //@   loop#5 modifies i, batch.scalars
-//@   loop#5 invariant 1 <= i && i <= batchSize
+//@   loop#5 invariant g1(publicKeys, messages, sigs, *opts, valid) && g2(valid, ret, len(publicKeys)) && 1 <= i && i <= batchSize
 //@   loop#6 modifies f, i, batch.scalars, hash, ret, batchOk, valid[0:len(valid)]
-//@   loop#6 invariant 0 <= i && i <= batchSize && forall(k, 0, i, len(publicKeys[k+offset]) == 32)
+//@   loop#6 invariant g1(publicKeys, messages, sigs, *opts, valid) && g2(valid, ret, len(publicKeys)) && 0 <= i && i <= batchSize && forall(k, 0, i, len(publicKeys[k+offset]) == 32 && optsok(*opts, messages[k+offset]) && (opts.ZIP215Verify || !small(bytesOf(publicKeys[k+offset][0:32]))))
 //@   loop#7 modifies i, batch.points, ret, batchOk, valid[0:len(valid)]
-//@   loop#7 invariant 0 <= i && i <= batchSize
+//@   loop#7 invariant g1(publicKeys, messages, sigs, *opts, valid) && g2(valid, ret, len(publicKeys)) && 0 <= i && i <= batchSize && forall(k, 0, i, decodable(bytesOf(publicKeys[k+offset][0:32])) && decodable(bytesOf(sigs[k+offset][0:32])) && (opts.ZIP215Verify || !small(bytesOf(sigs[k+offset][0:32]))))
+//@   lemma before call multiScalarmultVartime#1 : forallq(k, 0, batchSize, vpre(publicKeys[k+offset], messages[k+offset], sigs[k+offset], *opts))
 //@   loop#8 modifies i, ret, valid[0:len(valid)]
-//@   loop#8 invariant 0 <= i && i <= batchSize
+//@   loop#8 invariant g1(publicKeys, messages, sigs, *opts, valid) && g2(valid, ret, len(publicKeys)) && 0 <= i && i <= batchSize
 //@   loop#9 modifies i, ret, valid[0:len(valid)]
-//@   loop#9 invariant 0 <= i && i <= num
+//@   loop#9 invariant g1(publicKeys, messages, sigs, *opts, valid) && g2(valid, ret, len(publicKeys)) && 0 <= i && i <= num
 //@   ensures len(opts.Context) > 255 ==> (result0 == false && result1 == nil && result2 != nil)
 //@   ensures result2 == nil ==> (len(result1) == len(publicKeys) && fresh(result1))
+//@   ensures result2 == nil ==> g1(publicKeys, messages, sigs, *opts, result1)
+//@   ensures result2 == nil ==> (result0 == forall(k, 0, len(publicKeys), result1[k]))
